@@ -150,6 +150,11 @@ class Sym:
     def astype(self, *a, **k):
         return self.like(self.arr.copy())
 
+    def flip(self, *dims):
+        if len(dims) == 1 and isinstance(dims[0], (tuple, list)):
+            dims = tuple(dims[0])
+        return self.like(np.flip(self.arr, axis=tuple(dims)))
+
     def tobytes(self):
         return repr([repr(e) for e in self.arr.ravel()]).encode() + repr(self.arr.shape).encode()
 
